@@ -17,6 +17,18 @@ package signature
 
 //@ ghost func SigOK(pk PublicKey, context Context, msg []byte, sig RawSignature) bool { return ufb("sigOK", pk, context, bytesId(msg), sig) }
 
+//@ func RawSignature.UnmarshalBinary
+//@   props C09 C16
+//@   safety bounds nil
+//@   ensures (err == nil) == (len(data) == SignatureSize)
+//@   note a signature field decodes only from EXACTLY 64 bytes: a longer field is rejected, not truncated - otherwise bytes appended to the signature field of a signed envelope give a different byte string (another transaction hash) that still opens (seed C09_i accepted longer fields)
+
+//@ func PublicKey.UnmarshalBinary
+//@   props C09 C16
+//@   safety bounds nil
+//@   ensures (err == nil) == (len(data) == PublicKeySize)
+//@   note a public key decodes only from exactly 32 bytes
+
 //@ func Signature.Verify
 //@   trusted
 //@   modifies nothing
